@@ -62,7 +62,7 @@ CHECKS = {
    note="Trusts refmqtt.rs. Connection part not built yet in this revision.", design="4/C10"),
  "C12": dict(engine="simnet", technique=A_TECH,
    text="v3 server (default in-flight middleware), v5 server (Receive Maximum + size middleware) and v5 client: max_receive {1,2}/{0..3} x max_receive_size {0, 30 B, 64 KiB}; bursts of up to 3/4 publishes incl. one delivered in pieces against gated handlers, v5 server also with gated SUBSCRIBE / UNSUBSCRIBE in flight, v3 server also with 4-5 publishes arriving in one read; deliveries and completions in every order with <=1 injection; invariants after every step (executing handlers <= max_receive, bytes <= max_receive_size + largest packet), 0x93 never for a peer within quota, and after the drain every complete publish was handled with its full payload.",
-   note=A_NOTE + " Known findings C12-3 (limit overshoot by one right after a streamed payload on the v3 server) and C12-5 (overshoot on a burst in one read).", design="4/C12"),
+   note=A_NOTE + " The former known findings C12-3 / C12-5 (limit overshoot after a streamed payload / on a burst in one read) have been repaired.", design="4/C12"),
  "C13": dict(engine="simnet", technique=A_TECH,
    text="Same world as C05 plus readiness futures, cancellation of parked tasks, senders that fail locally after being woken, and back-pressure episodes that really engage the library's back-pressure state (a 24-byte QoS 0 publish over the 16-byte write buffer first), also with a streamed publish waiting on it; liveness is judged at quiescence after the correct peer has acknowledged everything it received: every non-cancelled send/ready future must have completed and the connection must be up.",
    note=A_NOTE + " Cancellation is applied to waiting (parked) futures only, as in the statement.", design="4/C13"),
